@@ -353,6 +353,42 @@ def _tmp_ops(d, lines):
     return f
 
 
+
+# ------------------------------------------------------------------ cascading re-link cases (C01, C08)
+def cascade_case(ctx, scen, i):
+    """one bucket; a chain of keys that each fill their key slot exactly; then both files are pushed past the 16 KiB
+    (thorough: also 2 MiB) offset-width boundary, so that moving one record makes its predecessor's link grow and move
+    in turn (two and more levels of re-linking), by overwrites with longer values and by deletes"""
+    g = G.G(ctx.seed, scen + 'casc', i)
+    r = g.rng
+    first = [11, 19, 27, 43, 59]       # 1(size)+1(len)+klen+2(voff)+1(next=0)   = class
+    later = [10, 18, 26, 42, 58]       # ... +2(next)                            = class
+    nk = r.randrange(2, 6)
+    keys = [bytes([65 + j]) * (r.choice(first) if j == 0 else r.choice(later)) for j in range(nk)]
+    lines = ['db d0 db', 'map m0 d0 bytes m B1']
+    for j, k in enumerate(keys):
+        lines.append('put m0 %s z%dx%d' % (k.hex(), r.choice([1, 5, 13]), j))
+    big = 17000 if (ctx.quick or i % 3) else 2100000
+    if r.random() < 0.5:
+        lines.append('put m0 z%dx7 z%dx9' % (big, big))
+    else:
+        lines += ['put m0 z%dx7 01' % big, 'put m0 %s z%dx9' % (b'fill'.hex(), big)]
+    order = list(range(nk))
+    r.shuffle(order)
+    for j in order:
+        c = r.random()
+        if c < 0.7:
+            lines.append('put m0 %s z%dx%d' % (keys[j].hex(), r.choice([100, 300, 600]), j))
+        else:
+            lines.append('del m0 %s' % keys[j].hex())
+        for k in keys:
+            lines.append('get m0 %s' % k.hex())
+        lines.append('len m0')
+    for j, k in enumerate(keys):
+        lines.append('put m0 %s z%dx%d' % (k.hex(), r.choice([2, 700]), j + 3))
+    lines += ['get m0 %s' % k.hex() for k in keys] + ['iter m0 iter', 'stats m0', 'len m0', 'closeall', 'snap db']
+    pair(ctx, 'cascade', i, lines, files_oracle=True, op_timeout=60)
+
 # ------------------------------------------------------------------ C01
 def scen_C01(ctx):
     ctx.rule = ('seeded random histories (put/get/delete/includes_key/len/is_empty) over small key universes, all five key types, '
@@ -370,6 +406,7 @@ def scen_C01(ctx):
         lines.append('closeall')
         pair(ctx, 'hist', i, lines, stats=g.stats)
     parallel(one, range(n_hist))
+    parallel(lambda i: cascade_case(ctx, 'C01', i), range(ctx.scale(12, 60)))
     if not ctx.quick:
         # long histories (1e5 calls), API level against the ideal map only (values small)
         def long(i):
@@ -1128,6 +1165,7 @@ def scen_C08(ctx):
         lines += ['iter m0 iter', 'stats m0', 'closeall', 'snap db']
         pair(ctx, 'collide', i, lines, stats=g.stats, files_oracle=True)
     parallel(collide_hist, range(ctx.scale(60, 500)))
+    parallel(lambda i: cascade_case(ctx, 'C08', i), range(ctx.scale(24, 120)))
 
 
 SCENARIOS['C08'] = scen_C08
@@ -1144,7 +1182,9 @@ def scen_C11(ctx):
         g = G.G(ctx.seed, 'C11', i)
         r = g.rng
         nm = r.randrange(2, 6)
-        names = r.sample(['a', 'b', 'ab', 'a_b', 'map1', 'map10', 'x', 'xy', 'key', 'val'], nm)
+        # names that are prefixes of each other, differ only after a dot, or look like the crate's own extensions
+        pool = ['a', 'b', 'ab', 'a_b', 'map1', 'map10', 'x', 'xy', 'key', 'val', 'm.a', 'm.b', 'm.a.b', 'users.v1', 'users.v2', 'a.key', 'a.val', 'a.htx', 'A']
+        names = r.sample(pool, nm) if i % 3 else r.sample(['m.a', 'm.b', 'm.a.b', 'users.v1', 'users.v2', 'a.key', 'a', 'a.val'], nm)
         kts = [r.choice(G.KTS) for _ in range(nm)]
         lines = ['db d0 db']
         handles = {}       # map index -> list of handle ids
